@@ -27,10 +27,10 @@ struct Ck
 enum
 {
     S_CATC = 1, S_CATC_, S_CATN, S_CATN_, S_CATS, S_CATS_, S_CAT, S_CAT_, S_GETC, S_GETC_, S_GETN, S_GETN_,
-    S_RTRIM, S_RTRIM_, S_LTRIM, S_LTRIM_, S_TRIM, S_TRIM_, S_SETN, S_SETN_, S_SETM, S_EXIT, S_SWAP, S_UTF_CATC, S_UTF_LEN, S_CATF, S_ACCESS
+    S_RTRIM, S_RTRIM_, S_LTRIM, S_LTRIM_, S_TRIM, S_TRIM_, S_SETN, S_SETN_, S_SETM, S_EXIT, S_SWAP, S_UTF_CATC, S_UTF_LEN, S_CATF, S_ACCESS, S_SETM_RAW
 };
 static const char *s_names[] = {"?", "catc", "catc_", "catn", "catn_", "cats", "cats_", "cat", "cat_", "getc", "getc_", "getn", "getn_",
-                                "rtrim", "rtrim_", "ltrim", "ltrim_", "trim", "trim_", "setn", "setn_", "setm", "exit", "swap", "utf_catc", "utf_len", "catf", "access"};
+                                "rtrim", "rtrim_", "ltrim", "ltrim_", "trim", "trim_", "setn", "setn_", "setm", "exit", "swap", "utf_catc", "utf_len", "catf", "access", "setm_"};
 static bool terminating(int code)
 {
     switch (code)
@@ -146,7 +146,7 @@ struct Harness
         case S_CATN: case S_CATN_: case S_CATS: case S_CATS_: case S_CAT: case S_CAT_: return s + "(\"" + (length_mode ? "x*" + std::to_string(o.a) : show(block(o.a))) + "\")";
         case S_GETN: case S_GETN_: return s + "(" + std::to_string(o.a) + (o.b ? ",buf)" : ",NULL)");
         case S_RTRIM: case S_RTRIM_: case S_LTRIM: case S_LTRIM_: case S_TRIM: case S_TRIM_: return s + "(set=" + (o.a ? "\"" + show(std::string(TRIMSET[o.a], TRIMLEN[o.a])) + "\"" : "isspace") + ")";
-        case S_SETN: case S_SETN_: case S_SETM: return s + "(" + std::to_string(o.a) + ")";
+        case S_SETN: case S_SETN_: case S_SETM: case S_SETM_RAW: return s + "(" + std::to_string(o.a) + ")";
         case S_UTF_CATC: { char t[16]; snprintf(t, sizeof t, "U+%X", (unsigned)o.a); return s + "(" + t + ")"; }
         case S_CATF: return s + "(fmt#" + std::to_string(o.a) + ",arglen=" + std::to_string(o.b) + ")";
         }
@@ -334,6 +334,16 @@ struct Harness
             if (s->mem_ < (size_t)o.a) { ck.fail("capacity", "setm(" + std::to_string(o.a) + ") left capacity " + std::to_string(s->mem_)); return; }
             break;
         }
+        case S_SETM_RAW:
+        {
+            // the raw capacity setter, within its contract: a capacity that still holds the content and its terminator, or 0 on an
+            // empty string (which releases the storage)
+            int rc = a_str_setm_(s, (a_size)o.a);
+            if (rc != A_SUCCESS) { ck.fail("refused", "setm_(" + std::to_string(o.a) + ") reported failure although no allocation failed"); return; }
+            if (o.a == 0 && (s->ptr_ || s->mem_)) { ck.fail("capacity", "setm_(0) on an empty string did not release the storage"); return; }
+            if (s->mem_ < (size_t)o.a) { ck.fail("capacity", "setm_(" + std::to_string(o.a) + ") left capacity " + std::to_string(s->mem_)); return; }
+            break;
+        }
         case S_EXIT:
         {
             // ownership hand-over: the returned block is the client's, a NUL-terminated C string with the former content
@@ -470,6 +480,8 @@ struct Harness
         }
         for (size_t k = 0; k <= num; ++k) { if (!length_mode || k + 2 >= num || k == 0) { add(S_SETN_, (long)k); } }
         add(S_SETM, 0); add(S_SETM, (long)num + 1);
+        add(S_SETM_RAW, (long)num + 1);
+        if (num == 0) { add(S_SETM_RAW, 0); }
         if (mem < memcap) { add(S_SETM, (long)mem + 1); }
         add(S_EXIT); add(S_SWAP);
         return ops;
@@ -548,6 +560,7 @@ struct Harness
             return (o.code == S_CAT ? a_str_cat(s, L.aux) : a_str_cat_(s, L.aux)) == A_OMEMORY;
         }
         case S_SETM: return a_str_setm(s, (a_size)o.a) == A_OMEMORY;
+        case S_SETM_RAW: return a_str_setm_(s, (a_size)o.a) == A_OMEMORY;
         case S_EXIT: return a_str_exit(s) == nullptr; // needs room for the terminator when the content fills the capacity
         case S_UTF_CATC: return a_utf_catc(s, (a_u32)o.a) == A_OMEMORY;
         case S_CATF: return do_catf(s, o.a, o.b, expect) == 0;
